@@ -118,7 +118,11 @@ class address(FieldType):
         self.val = addr_long(addr)
 
     def __eq__(self, b):
-        return addr_long(self) == addr_long(b)
+        try:
+            return addr_long(self) == addr_long(b)
+        except TypeError:
+            # Not something we can compare with, let the other operand (or the identity fallback) decide
+            return NotImplemented
 
     def __str__(self):
         return addr_str(self.val)
